@@ -4,7 +4,7 @@
 From Coq Require Import Extraction ExtrOcamlBasic ExtrOCamlFloats ExtrOCamlInt63.
 From Coq Require Import List ZArith Floats.
 From MT Require Import Arith SweepModel GraphModel InitModel CtrlModel MainModel Layout GenLayout
-     GenParams FloatInst CliModel.
+     GenParams FloatInst CliModel Mt19937 SeededModel.
 
 Extraction Language OCaml.
 Set Extraction Optimize.
@@ -15,7 +15,8 @@ Extraction "../ocaml/model.ml"
   lik_gen_state lik_ass_state tget dget mget mtab
   init_rows init_sym_random init_diag_random init_from_gen init_from_ass zeros
   passb loop_step realization realization_tr max_L2 run run_tr
-  validate factorize factorize_starts w_of_flat_gen w_of_flat_ass flat_of_w_gen flat_of_w_ass
+  validate factorize factorize_starts factorize_seeded factorize_starts_seeded draws_needed mt_draws outputs_from mt_init
+  w_of_flat_gen w_of_flat_ass flat_of_w_gen flat_of_w_ass
   idx unidx t_make t_resize t_idx idx_gen idx_ass cxx_idx cxx_transpose_perm cxx_diag_dims cxx_diag_access cxx_sym_dims
   cxx_eval_period
   parse_adjacency read_affinity render_nat membership_rows affinity_rows opt_exists opt_value.
